@@ -6,7 +6,11 @@ import (
 	"fmt"
 	"go/constant"
 	"go/token"
+	"go/types"
+	"os"
+	"regexp"
 	"sort"
+	"strconv"
 	"strings"
 
 	"golang.org/x/tools/go/ssa"
@@ -60,12 +64,51 @@ type State map[string]int
 
 // evalCond evaluates an SSA condition under the state; ok=false if the condition is not over atoms.
 func evalCond(c ssa.Value, atoms []Atom, st State) (val bool, ok bool) {
+	return evalCondSub(c, atoms, st, nil, 0)
+}
+
+var reParamTok = regexp.MustCompile(`\ba([0-9]+)\b`)
+
+// evalCondSub: like evalCond, with the callee's parameters replaced by the caller's argument expressions
+// (args != nil when evaluating inside an extracted predicate helper).
+func evalCondSub(c ssa.Value, atoms []Atom, st State, args []string, depth int) (val bool, ok bool) {
+	render := func(v ssa.Value) string {
+		s := cfgx.Expr(v)
+		if args == nil {
+			return s
+		}
+		return reParamTok.ReplaceAllStringFunc(s, func(m string) string {
+			i, _ := strconv.Atoi(m[1:])
+			if i < len(args) {
+				return args[i]
+			}
+			return m
+		})
+	}
 	if u, isU := c.(*ssa.UnOp); isU && u.Op == token.NOT {
-		v, ok := evalCond(u.X, atoms, st)
+		v, ok := evalCondSub(u.X, atoms, st, args, depth)
 		return !v, ok
 	}
+	if k, isK := c.(*ssa.Const); isK && k.Value != nil && k.Value.Kind() == constant.Bool {
+		return constant.BoolVal(k.Value), true
+	}
+	if call, isCall := c.(*ssa.Call); isCall && depth < 2 {
+		if callee := call.Call.StaticCallee(); callee != nil && !call.Call.IsInvoke() && IsPurePredicate(callee) {
+			sub := make([]string, len(call.Call.Args))
+			for i, a := range call.Call.Args {
+				sub[i] = render(a)
+			}
+			v, ok := evalPredicate(callee, atoms, st, sub, depth+1)
+			if os.Getenv("ANNVERIF_DTDEBUG") != "" {
+				fmt.Fprintf(os.Stderr, "dtable: predicate %s(%v) under %v -> %v ok=%v\n", callee.Name(), sub, st, v, ok)
+			}
+			if ok {
+				return v, true
+			}
+		}
+	}
 	if b, isB := c.(*ssa.BinOp); isB {
-		x, y := cfgx.Expr(b.X), cfgx.Expr(b.Y)
+		x, y := render(b.X), render(b.Y)
 		for _, a := range atoms {
 			switch a.Kind {
 			case Cmp:
@@ -114,10 +157,99 @@ func evalCond(c ssa.Value, atoms []Atom, st State) (val bool, ok bool) {
 		}
 		return false, false
 	}
-	s := cfgx.Expr(c)
+	s := render(c)
 	for _, a := range atoms {
 		if a.Kind == Bool && a.X == s {
 			return st[a.Name] == T, true
+		}
+	}
+	return false, false
+}
+
+// isPurePredicate: a small bool function of the repository without stores, sends, defers or panics
+// (an extracted condition).
+func IsPurePredicate(fn *ssa.Function) bool {
+	if fn.Blocks == nil || len(fn.Blocks) > 12 || fn.Recover != nil {
+		return false
+	}
+	res := fn.Signature.Results()
+	if res.Len() != 1 {
+		return false
+	}
+	if b, ok := res.At(0).Type().Underlying().(*types.Basic); !ok || b.Kind() != types.Bool {
+		return false
+	}
+	for _, b := range fn.Blocks {
+		for _, ins := range b.Instrs {
+			switch x := ins.(type) {
+			case *ssa.Store:
+				// spilling a by-value parameter into its own local is not an effect
+				if _, isAlloc := x.Addr.(*ssa.Alloc); !isAlloc {
+					return false
+				}
+			case *ssa.MapUpdate, *ssa.Send, *ssa.Go, *ssa.Defer, *ssa.Panic, *ssa.Select:
+				return false
+			}
+		}
+	}
+	return true
+}
+
+// evalPredicate interprets the helper's CFG under the abstract state; ok=false when some branch in it is
+// not decided by the atoms.
+func evalPredicate(fn *ssa.Function, atoms []Atom, st State, args []string, depth int) (bool, bool) {
+	cur := fn.Blocks[0]
+	path := []*ssa.BasicBlock{cur}
+	// resolve (possibly nested) phis along the path actually taken
+	var resolve func(v ssa.Value) (ssa.Value, bool)
+	resolve = func(v ssa.Value) (ssa.Value, bool) {
+		phi, isPhi := v.(*ssa.Phi)
+		if !isPhi {
+			return v, true
+		}
+		for i := len(path) - 1; i > 0; i-- {
+			if path[i] == phi.Block() {
+				for k, p := range phi.Block().Preds {
+					if p == path[i-1] {
+						return resolve(phi.Edges[k])
+					}
+				}
+			}
+		}
+		return nil, false
+	}
+	for steps := 0; steps < 64; steps++ {
+		last := cur.Instrs[len(cur.Instrs)-1]
+		switch x := last.(type) {
+		case *ssa.If:
+			c, ok := resolve(x.Cond)
+			if !ok {
+				return false, false
+			}
+			v, ok := evalCondSub(c, atoms, st, args, depth)
+			if !ok {
+				return false, false
+			}
+			if v {
+				cur = cur.Succs[0]
+			} else {
+				cur = cur.Succs[1]
+			}
+			path = append(path, cur)
+		case *ssa.Jump:
+			cur = cur.Succs[0]
+			path = append(path, cur)
+		case *ssa.Return:
+			if len(x.Results) != 1 {
+				return false, false
+			}
+			r, ok := resolve(x.Results[0])
+			if !ok {
+				return false, false
+			}
+			return evalCondSub(r, atoms, st, args, depth)
+		default:
+			return false, false
 		}
 	}
 	return false, false
